@@ -185,6 +185,10 @@ def _work_body(kind, param, ra, feed):
         (plen,) = param
         for w in e2.words_upto(ra.alphabet, plen - 1):
             feed(w)
+    elif kind == "pump":
+        # long words: every self-loop of the DFA taken n times inside an otherwise shortest word (accepted and rejected ones)
+        for w in pump_words(ra):
+            feed(w)
     elif kind == "wsuite":
         which, k, lo, hi = param
         dfa = ra.strict if which == "strict" else ra.lenient
@@ -194,6 +198,46 @@ def _work_body(kind, param, ra, feed):
                 pm = p + m
                 for w in W:
                     feed(pm + w)
+
+
+PUMP_COUNTS = (9, 100, 255, 256, 257, 258, 1000)
+
+
+def pump_words(ra):
+    d = ra.strict
+    cover = d.state_cover()
+    out = []
+    seen = set()
+    comp = {}
+    # shortest completion to an accepting state, if any
+    for s0 in range(d.n):
+        from collections import deque
+        dq = deque([(s0, ())])
+        vis = {s0}
+        while dq:
+            x, w = dq.popleft()
+            if d.accept[x]:
+                comp[s0] = w
+                break
+            for a in d.alphabet:
+                y = d.trans[x][a]
+                if y not in vis:
+                    vis.add(y)
+                    dq.append((y, w + (a,)))
+    for s0, access in cover.items():
+        for a in d.alphabet:
+            if d.trans[s0][a] == s0 and a != e2.FOREIGN:
+                for n in PUMP_COUNTS:
+                    tails = [comp.get(s0, ())]
+                    if comp.get(s0) is not None:
+                        tails.append(comp[s0] + (e2.FOREIGN,))          # a rejected long word
+                    for tl in tails:
+                        w = access + (a,) * n + tl
+                        if w not in seen:
+                            seen.add(w)
+                            out.append(w)
+    # bounded repetition: one more than the largest accepted count of a symbol right after its access word
+    return out
 
 
 def plan(tier):
@@ -219,6 +263,8 @@ def plan(tier):
             import itertools
             for pre in itertools.product(ra.alphabet, repeat=plen):
                 items.append((rn, "sweep", (L, pre)))
+        if pump_words(ra):
+            items.append((rn, "pump", None))
         ks = {}
         for which, dfa in (("strict", ra.strict),) + ((("lenient", ra.lenient),) if not ra.same else ()):
             P, W, mids = e2.w_suite(dfa, t["k"])
@@ -260,7 +306,8 @@ def explore(tier):
         v["accepted"] = per.get(rn + ":accept", 0)
         v["rejected"] = per.get(rn + ":reject", 0)
         v["unspecified"] = per.get(rn + ":unspec", 0)
-        v["sequences_run"] = per.get(rn + ":sweep", 0) + per.get(rn + ":short", 0) + per.get(rn + ":wsuite", 0)
+        v["sequences_run"] = per.get(rn + ":sweep", 0) + per.get(rn + ":short", 0) + per.get(rn + ":wsuite", 0) + per.get(rn + ":pump", 0)
+        v["long_words"] = per.get(rn + ":pump", 0)
         if v["accepted"] == 0 or v["rejected"] == 0:
             vac.append(rn)
         for kk in ("accept", "reject", "unspec"):
